@@ -51,7 +51,7 @@ func vhC16Quote(v []byte) string {
 }
 
 //verif:mock (*github.com/XiaoMi/Gaea/proxy/server.SessionExecutor).handleQuery vhC16HandleQuery
-//verif:harness prop=C16 maxpaths=4000000 timeout=2400 bounds="session with statement 1 'select ?, ?' and statement 2 'select ?'; every sequence of k=3 (quick) / 4 (thorough) commands from {execute(stmt 1: two string values of one symbolic letter or NULL, new-params-bound flag 1), execute without types (flag 0), execute truncated after the null bitmap / after the types, send_long_data(stmt 1, param 0|1, one symbolic letter), send_long_data(stmt 2), reset(stmt 1), execute(stmt 9 unknown)}; the backend answer to each executed query may be an error"
+//verif:harness prop=C16 maxpaths=4000000 timeout=2400 bounds="session with statement 1 'select ?, ?' and statement 2 'select ?'; every sequence of k=3 (quick) / 4 (thorough) commands from {execute(stmt 1: two string values of one symbolic letter or NULL, new-params-bound flag 1), execute without types (flag 0), execute truncated after the null bitmap / after the types (with long data pending: an execute with an unknown type code instead), send_long_data(stmt 1, param 0|1, one symbolic letter), send_long_data(stmt 2), reset(stmt 1), execute(stmt 9 unknown)}; the backend answer to each executed query may be an error"
 func Harness_C16_CommandSequences() {
 	se := &SessionExecutor{stmts: map[uint32]*Stmt{}}
 	s1 := vhC16Prepare(se, 1, "select ?, ?")
@@ -126,7 +126,28 @@ func Harness_C16_CommandSequences() {
 			}
 		case 2: // execute truncated (malformed packet)
 			if long[0] != nil || long[1] != nil {
-				continue // with long data pending the short packet may be complete
+				// with long data pending a short packet may be complete; a packet that is malformed
+				// whatever is pending: an unknown type code for the parameter without long data
+				if long[0] != nil && long[1] != nil {
+					continue
+				}
+				bad := 0
+				if long[0] != nil {
+					bad = 1
+				}
+				types := []byte{mysql.TypeVarString, 0, mysql.TypeVarString, 0}
+				types[2*bad] = 0xf0
+				pkt := append([]byte{1, 0, 0, 0, 0, 1, 0, 0, 0, 0, 1}, types...)
+				pkt = append(pkt, 1, vhC16Letter("v0"))
+				before := len(vhC16Executed)
+				_, err := se.handleStmtExecute(util.NewRequestContext(), pkt)
+				vs.Assert(err != nil && len(vhC16Executed) == before, "C16/malformed-execute-fails-without-running")
+				long = [2][]byte{}
+				for i := range s1.args {
+					vs.Assert(s1.args[i] == nil, "C16/failed-execution-leaves-no-bound-value")
+				}
+				haveTypes = true
+				continue
 			}
 			pkt := []byte{1, 0, 0, 0, 0, 1, 0, 0, 0, 0}
 			if vs.Choice("cut", 2) == 1 {
